@@ -67,11 +67,11 @@ spec fn ps_inv(s: crate::htlc_manager::PaymentState, g: G) -> bool {
       ps_inv(*old(self), *old(g))
 //@ requires#only_fail_responses [C02]
       resp is Fail
-//@ ensures#inv [C06,C07]
+//@ ensures#inv [C06,C07,C11,C14]
       ps_inv(*final(self), *final(g))
-//@ ensures#fail_requested [C07,C04,C12]
+//@ ensures#fail_requested [C07,C04,C12,C06,C14]
       final(self).is_fail_requested && !final(self).is_ready
-//@ ensures#first_request_wins [C07,C12]
+//@ ensures#first_request_wins [C07,C12,C06,C14,C11]
       final(g).fail_q == (if old(self).is_fail_requested { old(g).fail_q } else { old(g).fail_q.push(resp) })
 //@ ensures#frame
       final(g).held == old(g).held && final(g).ready_q == old(g).ready_q && final(self).htlcs@ == old(self).htlcs@
